@@ -184,7 +184,7 @@ def restart_binding(ctx):
     out = ctx.path("out_restart.ndjson")
     rc, text, wall = ctx.go_test(MOD, "./internal/cluster", ["zz_verif_restart_test.go"],
                                  "^TestVerifClusterRestart$", env={"VERIF_OUT": out}, tag="restart",
-                                 timeout=600)
+                                 timeout=150)
     rows = ctx.read_ndjson(out)
     if rc != 0 or not rows:
         raise vlib.Inconclusive("cluster restart harness failed rc=%s:\n%s" % (rc, text[-2000:]))
@@ -259,6 +259,7 @@ def run(ctx):
     if thorough:
         design(ctx, acc, "n3_overlap_restart", mc_cfg(3, 0, 1, 0, 2, ("hub",)))
         design(ctx, acc, "n3_overlap_tick", mc_cfg(3, 1, 0, 0, 2, ("hub", "skew")))
+        design(ctx, acc, "n4_seq", mc_cfg(4, 0, 0, 0, 1, ("hub", "self")))
     # the as-is design violates the unmasked convergence clause exactly in the named window
     design(ctx, acc, "asis_unmasked", mc_cfg(2, 1, 0, 0, 1, ("out", "hub"), conv="ConvergedAfterAllPairs", props=False),
            expect="ConvergedAfterAllPairs")
@@ -295,7 +296,12 @@ def run(ctx):
                        simulate="num=20000", depth=18)
 
     # ------------------------------------------------------------ 3. Restart bound to cluster.Open
-    restart_rows, restart_drift = restart_binding(ctx)
+    restart_rows, restart_drift, restart_dead = [], [], None
+    try:
+        restart_rows, restart_drift = restart_binding(ctx)
+    except vlib.Inconclusive as e:
+        # e.g. a join that never completes; the replay verdicts below still count
+        restart_dead = str(e)
 
     # ------------------------------------------------------------ 4. verdicts
     drift = process_bad(ctx, acc)
@@ -334,6 +340,9 @@ def run(ctx):
         if missing:
             ctx.finish("model_checking", cov, assumptions)
             raise vlib.Inconclusive("vacuous replay: never exercised %s" % missing)
+        if restart_dead:
+            ctx.finish("model_checking", cov, assumptions)
+            raise vlib.Inconclusive(restart_dead)
         if drift or restart_drift:
             ctx.finish("model_checking", cov, assumptions)
             d = drift[0][1] if drift else restart_drift[0]
